@@ -12,6 +12,7 @@ from .. import common
 
 HISTORY_LEN = {"quick": 5, "thorough": 6}
 ORDER_LEN = {"quick": 4, "thorough": 5}
+LONG_LEN = {"quick": 3000, "thorough": 20000}
 BOUNDS = {
     # (alphabet, max length).  '\r', U+2028, '\x0b', '\x85' are ordinary characters for this property (line breaks are
     # '\n' only), but str.splitlines() treats them as line boundaries - so they must be in some alphabet.
@@ -123,6 +124,7 @@ def check_histories(length: int, first_parts):
                     a = "".join(pa)
                     ida = id(a)
                     Position(a, p).line_col()
+                    Span(a, p, length).lines()
                     del a
                     b = "".join(pb)
                     same_addr += 1 if id(b) == ida else 0
@@ -136,6 +138,9 @@ def check_histories(length: int, first_parts):
                     lines = ref_lines(b)
                     want_lines = lines[want[0] - 1: ref_line_col(b, length)[0]]
                     got_lines = list(Span(b, q, length).lines())
+                    again = list(Span(b, q, length).lines())      # the same question twice on the same object
+                    if got_lines == want_lines and again != want_lines:
+                        got_lines = again
                     if got_lines != want_lines:
                         fails.append({"kind": "span.lines-after-other-text", "text": b, "span": [q, length], "got": got_lines, "expected": want_lines, "previous_text": "".join(pa), "previous_pos": p})
                     del b
@@ -162,6 +167,9 @@ def check_orders(length: int, first_parts):
                     got.append(tuple(Pair(t, p2, length, frame).line_col()))
                     got.append(tuple(Position(t, p3).line_col()))
                     lines_got = list(Span(t, p1, length).lines())
+                    lines_again = list(Span(t, p1, length).lines())
+                    if lines_again != lines_got:
+                        lines_got = lines_again
                     want = [ref_line_col(t, p1), ref_line_col(t, p2), ref_line_col(t, p3)]
                     if got != want:
                         fails.append({"kind": "line_col-depends-on-earlier-queries", "text": t, "offsets_in_order": [p1, p2, p3], "got": [list(g) for g in got], "expected": [list(w) for w in want]})
@@ -172,7 +180,60 @@ def check_orders(length: int, first_parts):
     return fails[:20], evals
 
 
+LONG_PATTERNS = ("ab cd\n", "a", "\n", "a\n\nbc", "\u00e9x\n", "ab\r\ncd ")
+
+
+def check_long(pattern: str, n: int):
+    """One long text (the property's 'long texts' clause): every offset for line_col / line_of, a grid of spans for lines(), and the pairs of a
+    real parse with thousands of siblings queried for line_col in REVERSE document order (nothing may depend on the order of questions)."""
+    from pest import Parser
+    from pest.pairs import Position, Span
+
+    text = (pattern * (n // len(pattern) + 1))[:n]
+    fails, evals = [], 0
+    starts = [0]
+    for i, ch in enumerate(text):
+        if ch == "\n":
+            starts.append(i + 1)
+    import bisect
+
+    def ref(p):
+        k = bisect.bisect_right(starts, p) - 1
+        return (k + 1, p - starts[k] + 1)
+
+    for p in list(range(0, n + 1, 7)) + [n, n - 1]:
+        evals += 1
+        got = tuple(Position(text, p).line_col())
+        if got != ref(p):
+            fails.append({"kind": "long:line_col", "text": f"({pattern!r} x {n} chars)", "pos": p, "got": list(got), "expected": list(ref(p))})
+            break
+    lines = ref_lines(text)
+    for s0 in range(0, n, 301):
+        for e0 in (s0, min(n, s0 + 1), min(n, s0 + 40), n):
+            evals += 1
+            want = lines[ref(s0)[0] - 1: ref(e0)[0]]
+            got = list(Span(text, s0, e0).lines())
+            if got != want:
+                fails.append({"kind": "long:span.lines", "text": f"({pattern!r} x {n} chars)", "span": [s0, e0], "got": got[:3], "expected": want[:3]})
+                break
+    parser = Parser.from_grammar("r = { x* }\nx = { ANY }\n", optimizer=None)
+    kids = parser.parse("r", text).first().children
+    try:
+        for pr in list(reversed(kids))[::3][:1500] + list(kids)[::50]:
+            evals += 1
+            got = tuple(pr.line_col())
+            if got != ref(pr.start):
+                fails.append({"kind": "long:pair.line_col", "text": f"({pattern!r} x {n} chars)", "pos": pr.start, "got": list(got), "expected": list(ref(pr.start))})
+                break
+    except Exception as exc:  # noqa: BLE001
+        fails.append({"kind": f"long:exc:{type(exc).__name__}", "text": f"({pattern!r} x {n} chars)", "got": str(exc)[:80], "expected": "Pair.line_col() of a late sibling asked first"})
+    return fails, evals
+
+
 def _chunk(payload):
+    if payload[0] == "long":
+        f, e = check_long(payload[1], payload[2])
+        return f, e, 0, 0, 0
     if payload[0] == "orders":
         _, length, first_parts = payload
         f, e = check_orders(length, first_parts)
@@ -220,6 +281,8 @@ def run(tier: str) -> int:
         parts = [list(t) for t in itertools.product("a\n\u00e9", repeat=length)]
         for i in range(0, len(parts), 9):
             payloads.append(("orders", length, parts[i:i + 9]))
+    for pat in LONG_PATTERNS:
+        payloads.append(("long", pat, LONG_LEN[tier]))
     hist_evals = same_addr = 0
     for f, e, nt, t, same in common.parallel_map(_chunk, payloads, fresh=False, order_seed=common.seed()):
         fails.extend(f)
@@ -252,6 +315,8 @@ def run(tier: str) -> int:
         "samples": [{"text": t, "offsets": [[p, list(ref_line_col(t, p))] for p in range(len(t) + 1)]} for t in common.pick_samples(some, 3)],
         "exhaustive": True,
         "texts": texts,
+        "long_texts": {"patterns": list(LONG_PATTERNS), "length": LONG_LEN[tier], "rule": "one text per pattern: line_col at every 7th offset, Span.lines on a grid of spans, and the pairs of a real parse "
+                       "(r = { x* }, x = { ANY }: as many siblings as characters) asked for line_col in reverse document order"},
         "query_orders": {"length": ORDER_LEN[tier], "rule": "every text over {a, newline, e-acute} up to the length bound as ONE object queried at three offsets in every order "
                          "(Position.line_col, Pair.line_col, Position.line_col, then Span.lines): each answer must be that of its offset alone"},
         "two_text_histories": {"length": hist_len, "second_text_at_first_texts_address": same_addr,
@@ -265,7 +330,7 @@ def run(tier: str) -> int:
         "line breaks are '\\n' only (the property's scope); '\\r', U+2028, VT, NEL, FS appear in the alphabets as ordinary characters",
         "line_of() may or may not include the line's terminating newline (the property does not say)",
         "Span.lines() includes the line holding the end position when it exists (pest's LinesSpan does the same)",
-        "texts longer than the bound and the 'sampled long texts' clause are not covered",
+        "long texts: six patterned texts of 3,000 (thorough 20,000) characters, not an enumeration",
     ]
     return rep.finish()
 
